@@ -166,6 +166,12 @@ def collector_job(comm, shape, nprocs, eta_i, S, steps, tfloat, out, kind="tok")
     d.reduce()
     if rk == 0:
         last = steps[-1] % S
+        # the line the driver prints for that slot carries the same eight quantities, in the documented column order
+        cols = [float(x) for x in d.getLine(last).split()]
+        want = [float(d.diagnostics[0, last]), float(d.l2PhiResult[last]), float(d.l2GridResult[last]), float(d.l1Result[last]),
+                float(d.nPartResult[last]), float(d.min_val[last]), float(d.max_val[last]), float(d.KE_val[last])]
+        line_ok = len(cols) == 8 and all(abs(a - b) <= 1e-9 * max(1.0, abs(b)) for a, b in zip(cols, want))
+        out[rk].append(("line", line_ok, cols, want))
         out[rk].append(("reduce", {"l2phi": float(d.l2PhiResult[last]) ** 2, "l2": float(d.l2GridResult[last]) ** 2,
                                    "l1": float(d.l1Result[last]), "npart": float(d.nPartResult[last]), "ke": float(d.KE_val[last]),
                                    "mn": float(d.min_val[last]), "mx": float(d.max_val[last])}))
@@ -280,6 +286,9 @@ def run(ctx):
                     if v[0] == "slot":
                         events.append({"k": "slot", "step": v[1], "S": v[2], "written": v[3], "ok": v[4], "err": v[5]})
                         meta.append(dict(m0, what="slot", rank=rk))
+                    elif v[0] == "line":
+                        events.append({"k": "line", "ok": bool(v[1]), "err": "" if v[1] else "printed line %s, reduced quantities %s" % (v[2], v[3])})
+                        meta.append(dict(m0, what="printed diagnostics line", rank=rk))
                     elif v[0] == "reduce":
                         for key, q, sc, sh3 in (("l2phi", "l2", 2, True), ("l2", "l2", 4, False), ("l1", "l1", 4, False),
                                                 ("npart", "npart", 4, False), ("ke", "ke", 8, False)):
